@@ -32,6 +32,7 @@ type aeCfg struct {
 	Random  bool
 	Ranges  bool // declare valuesRange [0,2]
 	Extra   bool // one known, not considered alternative zz with value 3 on every criterion (widens the observed range)
+	Reverse bool // choseToMake / knownAlternatives listed in descending id order
 }
 
 func critIDs(m int) []string {
@@ -64,6 +65,12 @@ func aeRequest(cfg aeCfg) M {
 		}
 		ka = append(ka, alt(ids6[i], cv))
 		chose = append(chose, ids6[i])
+	}
+	if cfg.Reverse {
+		for i, j := 0, len(chose)-1; i < j; i, j = i+1, j-1 {
+			chose[i], chose[j] = chose[j], chose[i]
+			ka[i], ka[j] = ka[j], ka[i]
+		}
 	}
 	if cfg.Extra {
 		cv := map[string]float64{}
@@ -319,6 +326,18 @@ func incLists(cids []string) []levelSpec {
 			out = append(out, levelSpec{Fn: "thresholds", Explicit: ex})
 		}
 	}
+	// lists with a plateau (two consecutive identical levels) before a higher level
+	for _, seq := range [][]float64{{0.5, 0.5, 1.5}, {1.5, 1.5, 2.5, 2.5}} {
+		var ex []map[string]float64
+		for _, v := range seq {
+			m := map[string]float64{}
+			for _, id := range cids {
+				m[id] = v
+			}
+			ex = append(ex, m)
+		}
+		out = append(out, levelSpec{Fn: "thresholds", Explicit: ex})
+	}
 	return out
 }
 
@@ -396,6 +415,11 @@ func aeEnumerate(s *Shard, prop string, fn func(c *Case)) {
 							}
 						}
 						fn(&Case{Prop: prop, Kind: "aspect", Req: aeRequest(cfg)})
+						if g.n == 3 && si%2 == 1 {
+							rc := cfg
+							rc.Reverse = true
+							fn(&Case{Prop: prop, Kind: "aspect", Req: aeRequest(rc)})
+						}
 						if g.n >= 2 && g.n <= 3 && g.m == 2 && si%4 == 0 {
 							for _, k := range []float64{0, 0.5, 1 - 1.0/(1<<53)} {
 								cfg.Random = true
